@@ -411,7 +411,11 @@ func (r *rewriter) inst(t *Tree, env *Env, depth int, slot reflect.Type) (*Tree,
 				if !ok {
 					return nil, fmt.Errorf("metavariable %q is used on the plus side but not bound on the minus side", name)
 				}
-				return r.opt(b, slot, depth), nil
+				// C03: "a syntactically identical copy of the code that
+				// metavariable stood for at that site" - instances nested in
+				// the captured code are reproduced as they were matched, not
+				// rewritten (unlike instances inside an elided run, below).
+				return b, nil
 			}
 		}
 		if id, ok := forDotsID(t); ok {
